@@ -173,7 +173,7 @@ class OrientedLine:
       raise gfapy.TypeError(
         "Invalid class ({}) for line reference ({})"
         .format(self.line.__class__, self.line))
-    if not re.match(r"^[!-~]+$", string):
+    if not re.match(r"^[!-~]+\Z", string):
       raise gfapy.FormatError(
       "{} is not a valid GFA identifier\n".format(repr(string))+
       "(it contains spaces or non-printable characters)")
